@@ -183,6 +183,13 @@ class Module:
             elif isinstance(st, ast.FunctionDef):
                 if st.name.startswith("_unittest"):
                     continue
+                if st.name in self.functions:
+                    # the name is rebound (e.g. every implementation registered with a single-dispatch function is called
+                    # `_`): the earlier definitions stay in the table under a synthetic key - they are still reachable as values
+                    n_prev = sum(1 for k in self.functions if k.split("#")[0] == st.name)
+                    prev = self.functions[st.name]
+                    prev.qualname = "%s#%d" % (prev.qualname, n_prev)
+                    self.functions["%s#%d" % (st.name, n_prev)] = prev
                 self.functions[st.name] = FuncInfo(self, st, None, None)
             elif isinstance(st, ast.Assign):
                 for t in st.targets:
